@@ -655,6 +655,49 @@ def r01_7(prog: Program, rep):
                f"another id than git computes", ser.node.lineno)
 
 
+def r01_9(prog: Program, rep):
+    """SPELLING FLAGS belong to the parsed value.  The parser records that a timezone was spelled "-0000" in a `_*_timezone_neg_utc`
+    flag which the serialiser consults.  Every such flag is cleared by the setter of the timezone it describes - otherwise
+    `c.author_timezone = 3600` after parsing "-0000" serialises as "--100"."""
+    m = prog.module(OBJ)
+    flags = sorted({x.attr for x in ast.walk(m.tree) if isinstance(x, ast.Attribute) and x.attr.endswith("_timezone_neg_utc")})
+    if len(flags) < 3:
+        raise AnalysisError(f"expected >= 3 *_timezone_neg_utc flags in objects.py, found {flags}")
+    props = {}
+    for cls in [c for c in ast.walk(m.tree) if isinstance(c, ast.ClassDef)]:
+        for s_ in cls.body:
+            if isinstance(s_, ast.Assign) and isinstance(s_.targets[0], ast.Name) and s_.targets[0].id.endswith("_timezone") and isinstance(s_.value, ast.Call):
+                props[s_.targets[0].id] = s_.value
+    for fl in flags:
+        zone = fl[1:-len("_neg_utc")]
+        call = props.get(zone)
+        cleared = call is not None and any(isinstance(k.value, ast.Constant) and k.value.value == fl for k in call.keywords) or any(
+            isinstance(fn, ast.FunctionDef) and zone in fn.name and any(isinstance(a, ast.Assign) and norm(a.targets[0]).endswith(fl) for a in ast.walk(fn)) for fn in ast.walk(m.tree))
+        rep.ob("R01.9", OBJ, zone, f"assigning {zone} clears {fl}", bool(cleared),
+               f"the flag set by parsing '-0000' survives an assignment: the new offset is serialised with a doubled sign ('--100'), which git fsck rejects "
+               f"(badTimezone), and equal field values give different ids", call.lineno if call is not None else 0)
+
+
+def r01_10(prog: Program, rep):
+    """A MISSING message is a value of its own.  _parse_message maps an object without the blank separator line to message=None;
+    the writer must then not emit the separator, or re-serialising the parsed object appends a byte and renames it."""
+    m = prog.module(OBJ)
+    f = m.funcs.get("_format_message")
+    if f is None:
+        raise AnalysisError("objects._format_message not found")
+    g = cfg_of(prog, f)
+    sep = [i for i, n in g.nodes.items() if n.kind == "stmt" and any(isinstance(y, ast.Yield) and isinstance(y.value, ast.Constant) and y.value.value == b"\n" for y in ast.walk(n.ast))]
+    if not sep:
+        raise AnalysisError("_format_message: emission of the separator line not found")
+    ps = [a.arg for a in f.node.args.args]
+    body = ps[1] if len(ps) > 1 else "body"
+    tests = [i for i, n in g.nodes.items() if n.kind == "test" and norm(n.ast) in (f"{body} is not None", f"{body} is None")]
+    bad = must_pass(g, sep, tests)
+    rep.ob("R01.10", OBJ, f.qual, "the separator line is emitted only when there is a message (None = no separator)", bool(tests) and not bad,
+           "the separator is emitted unconditionally: an object parsed WITHOUT it (message None - git mktag produces that form, fsck accepts it) gets a byte "
+           "appended and a new name as soon as any field is re-assigned, and None and b'' collapse to the same bytes", g.nodes[sep[0]].line)
+
+
 def run(prog: Program, rep, tier="quick"):
     rep.rule("R01.7", "TABLE-AGREE with git: header emission order of Commit/Tag serializers (extra headers before gpgsig, signature last)")
     rep.rule("R01.6", "optional numeric fields (times, timezones) are tested with `is None` in the serializers: 0 is a value")
@@ -675,7 +718,11 @@ def run(prog: Program, rep, tier="quick"):
     r01_5(prog, rep)
     r01_6(prog, rep)
     r01_7(prog, rep)
+    r01_9(prog, rep)
+    r01_10(prog, rep)
     from sa.common import chunk_boundary_rule
+    rep.rule("R01.10", "a missing message (None) is serialised without the separator line")
+    rep.rule("R01.9", "timezone setters clear the '-0000' spelling flag left by the parser")
     rep.rule("R01.8", "CHUNKING: a blob's derived views do not depend on how its bytes are chunked (loops over chunk lists commute with concatenation)")
     chunk_boundary_rule(rep, "R01.8", prog.module("dulwich/objects.py"), floor=3)
     rep.floor("R01.1", 10)
